@@ -10,8 +10,9 @@ hash iff their pre-images are equal (SHA collisions are outside the claim).  `va
 text (`json_dumps`), the same text the JSON column stores and compares.
 
 The model mirrors the code after the three small repairs proposed with this property
-(harness/findings_proposed/C24-*.fix.diff): one row per distinct tag of a command, JSON `null` compared as
-JSON, `rm` without any pair or key matches nothing (instead of every tag of the entity).
+(harness/findings_proposed/C24-tags.fix.diff, committed to /repo as a `fix:` commit): one row per distinct tag of a
+command, JSON `null` compared as JSON, `rm` without any pair or key matches nothing (instead of every tag of the
+entity).
 -/
 namespace RedunModel.Tags
 
